@@ -717,6 +717,24 @@ def rule_r4(prog, res):
                             'own handler set is stored in the subclass table, '
                             'so listeners added to the subclass leak into '
                             'the base')
+    # the other spelling of the store: handlers.setdefault(k, <set>)
+    for c in calls_in(g.node):
+        if call_name(c) == 'setdefault' and isinstance(
+                c.func, ast.Attribute) and dotted(
+                c.func.value) == 'handlers' and len(c.args) == 2:
+            n_store += 1
+            v = c.args[1]
+            ok = isinstance(v, ast.Name) and v.id in fresh_vars or (
+                isinstance(v, ast.Call) and call_name(v) == 'oset')
+            where = '%s:%d' % (g.module.relpath, c.lineno)
+            res.ob('R4', where, 'collector stores %s (setdefault)' %
+                   unparse(v), 'ok' if ok else 'VIOLATED')
+            if not ok:
+                res.finding('R4', 'ServiceBaseMeta.__get_base_event_handlers'
+                            '|alias|%s' % unparse(v), where, 'a base class\'s '
+                            'own handler set is stored in the subclass table, '
+                            'so listeners added to the subclass leak into '
+                            'the base and its other subclasses')
     res.floor('R4', 'collector stores', n_store, 1)
     ret = [n for n in walk_no_defs(g.node) if isinstance(n, ast.Return)]
     for r in ret:
@@ -1321,6 +1339,16 @@ _D = 'spyne/descriptor.py'
 _O = 'spyne/util/oset.py'
 
 MUTANTS = [
+    Mutant('inherit-setdefault-base-set', 'R4', 'fire', 'spyne/service.py',
+           in_func('ServiceBaseMeta.__get_base_event_handlers',
+                   "                handler = handlers.get(k, oset())\n",
+                   "                handler = handlers.setdefault(k, v)\n"),
+           'alias'),
+    Mutant('inherit-setdefault-fresh-set', 'R4', 'benign', 'spyne/service.py',
+           in_func('ServiceBaseMeta.__get_base_event_handlers',
+                   "                handler = handlers.get(k, oset())\n",
+                   "                handler = handlers.setdefault(k, oset())"
+                   "\n"), None),
     Mutant('msgpack-envelope-of-two-passes', 'R15', 'fire',
            'spyne/protocol/msgpack.py',
            in_func('MessagePackRpc.create_in_document',
